@@ -109,7 +109,11 @@ impl Lowerer<'_, '_> {
         if is_ref {
             self.call_eq_of(false, left_ptr.into(), right_ptr.into(), ty)
         } else {
-            let ir_ty = self.lower_type(ty).unwrap();
+            // Zero-sized values (e.g. `()`) have no IR type and nothing to
+            // read: two of them are always equal.
+            let Some(ir_ty) = self.lower_type(ty) else {
+                return IrValue::Bool(true).into();
+            };
 
             let left = self.new_tmp(ir_ty);
             self.emit_read(left.clone(), left_ptr.into(), ir_ty);
